@@ -23,6 +23,7 @@ pub const DEF: PropDef = PropDef {
 };
 
 pub const SUBS: &[SubDef] = &[
+    SubDef { prop: "C15", name: "version_cipher_joint", oracle: version_cipher_joint },
     SubDef { prop: "C15", name: "tls_parsed", oracle: tls_parsed },
     SubDef { prop: "C15", name: "dtls_parsed", oracle: dtls_parsed },
     SubDef { prop: "C15", name: "constructed", oracle: constructed },
@@ -34,6 +35,10 @@ fn run(ctx: &Ctx) {
     ctx.run_tape("dtls_parsed", dtls_parsed, ctx.pick(80_000, 200_000), 400);
     ctx.run_tape("constructed", constructed, ctx.pick(50_000, 300_000), 300);
     ctx.run_tape("server", server, ctx.pick(80_000, 200_000), 200);
+    // joint sweep of (hello version, cipher id): every id maps to its registry entry or None whatever version stands next to it (a
+    // private table consulted for one version only - national or experimental suites - would hide behind the per-id sweeps)
+    let cases = (0..JOINT_VERSIONS.len() as u8).flat_map(|vi| (0..=255u8).map(move |hi| vec![vi, hi]));
+    ctx.run_enum("version_cipher_joint", version_cipher_joint, true, &format!("{} versions x all 65536 ids through cipher_suites / get_ciphers (TLS, DTLS) and get_cipher (ServerHello)", JOINT_VERSIONS.len()), cases);
     // the accessors in a process that has not touched the registry yet: one fresh child process per registered id (that id is the first
     // thing the child looks up), followed by an unlisted id and the same registered id again. State kept between lookups (a cache, a
     // lazily built table) whose initial value collides with a real id shows up here and, at best by luck, nowhere else
@@ -78,6 +83,34 @@ fn run(ctx: &Ctx) {
         obs.sample(json!({"fresh_processes": tb.file.len(), "lookups_per_process": 3, "accessors": ["cipher_suites", "get_ciphers", "get_cipher", "get_ciphersuite", "from_id"]}));
         Ok(())
     });
+}
+
+/// hello versions for the joint sweep: TLS, the TLS 1.3 drafts' range ends, DTLS (1.0, 1.2, 1.3, the pre-standard 0x0100), TLCP (0x0101), extremes
+const JOINT_VERSIONS: [u16; 16] = [0x0300, 0x0301, 0x0302, 0x0303, 0x0304, 0x7f12, 0x7f1c, 0xfeff, 0xfefd, 0xfefc, 0x0100, 0x0101, 0x0102, 0x0002, 0x0000, 0xffff];
+
+/// parameter tape: [version index, id high byte]
+fn version_cipher_joint(t: &mut Tape, obs: &mut Obs) -> R {
+    let version = JOINT_VERSIONS[t.u8() as usize % JOINT_VERSIONS.len()];
+    let hi = t.u8();
+    let tb = super::c12::tabs()?;
+    let ids: Vec<u16> = (0..=255u16).map(|lo| (hi as u16) << 8 | lo).collect();
+    let random = [0x33u8; 32];
+    let want: Vec<Option<&str>> = ids.iter().map(|id| tb.file.iter().find(|r| r.id == *id).map(|r| r.name.as_str())).collect();
+    let got = guard("hello accessors", || {
+        let ch = TlsClientHelloContents::new(version, &random, None, ids.iter().map(|c| TlsCipherSuiteID(*c)).collect(), vec![TlsCompressionID(0)], None);
+        let d = DTLSClientHello { version: TlsVersion(version), random: &random, session_id: None, cookie: &[], ciphers: ids.iter().map(|c| TlsCipherSuiteID(*c)).collect(), comp: vec![TlsCompressionID(0)], ext: None };
+        let names = |v: Vec<Option<&TlsCipherSuite>>| v.into_iter().map(|s| s.map(|c| c.name)).collect::<Vec<_>>();
+        let sh: Vec<Option<&str>> = ids.iter().map(|id| TlsServerHelloContents::new(version, &random, None, *id, 0, None).get_cipher().map(|c| c.name)).collect();
+        (names(ClientHello::cipher_suites(&ch)), names(ch.get_ciphers()), names(ClientHello::cipher_suites(&d)), sh)
+    })?;
+    obs.evals_add(4 * 256);
+    for (route, v) in [("TLS cipher_suites()", &got.0), ("get_ciphers()", &got.1), ("DTLS cipher_suites()", &got.2), ("ServerHello get_cipher()", &got.3)] {
+        for (k, id) in ids.iter().enumerate() {
+            ensure!(v.get(k).copied().flatten() == want[k], format!("C15:version-cipher-joint:{}", route), "{} in a hello of version {:#06x}: id {:#06x} maps to {:?}, the registry says {:?}", route, version, id, v.get(k), want[k]);
+        }
+    }
+    obs.nontrivial((version as u64) << 8 | hi as u64);
+    Ok(())
 }
 
 fn same(a: &[u8], b: &[u8]) -> bool {
